@@ -11,7 +11,8 @@ RULE = ('Sequences from 10 shape families (scale 1e-25..1e25, offsets up to 1e12
         'N in {4,5,6,8,10} (defined in the harness as a downstream crate would) and the crate\'s Moments4, plus '
         'Variance/Skewness/Kurtosis on the same data; observed after every add (n<=64) or at geometric checkpoints; '
         'len, mean, central_moment(p) and standardized_moment(p) for every p in 0..=N are compared with the exact '
-        'rational central moments within the section-2 envelopes (p=0,1 and standardized 0,1,2 exactly). Agreement '
+        'rational central moments within the section-2 envelopes (p=0,1 and standardized 0,1,2 exactly); sample sizes 2^16..2^56 by '
+        'self-merging followed by single adds (exact multiset oracle). Agreement '
         'with Mean/Variance/Skewness/Kurtosis follows because all are held to envelopes around the same exact value. '
         'distinct_nontrivial = distinct (type, program) cases with >=1 non-trivial checked state.')
 ASSUME = ['CPython int/Fraction arithmetic is exact; sqrt via isqrt to 2^-200', 'driver faithfully prints accessor bit patterns',
@@ -44,9 +45,16 @@ def run(tier, seed):
             binary = build(variant)
             descs = seqprop.make_descs(base, variant, binary, int(nseq * frac), common.NPROC * mult, seed)
             total.merge(common.run_shards(seqprop.shard, descs))
+            if variant in ('release', 'dev'):
+                # sample sizes beyond 2^32 / 2^53 (self-merging), then single adds: the add path with a huge n
+                import bigcount
+                bc = [(t, ka, kb) for t in ('Moments4', 'M4', 'M5', 'M6', 'M8', 'M10') for ka, kb in [(16, 16), (32, 32), (33, 0), (40, 20), (53, 0), (54, 54)]]
+                bdescs = [{'name': 'b%s%d' % (variant[0], s), 'variant': variant, 'binary': binary, 'work': bc[s::8], 'prop': PROP,
+                           'only': dict(TYPES), 'seed': seed * 7 + s} for s in range(8)]
+                total.merge(common.run_shards(bigcount.shard, bdescs))
     except common.Inconclusive as e:
         total.inconclusive.append(str(e))
-    need = {'nontrivial_states': 1000}
+    need = {'nontrivial_states': 1000, 'bigcount_states_above_2^32': 50, 'bigcount_states_above_2^53': 20}
     for t, _ in TYPES:
         need['cases_%s' % t] = 50
     return common.finish(PROP, tier, seed, total, RULE, t0, ASSUME, min_events=need,
